@@ -5,10 +5,8 @@ cd "$(dirname "$0")"
 export GOFLAGS=-mod=mod GOPROXY=off GOSUMDB=off GOTOOLCHAIN=local CGO_ENABLED=1
 mkdir -p .bin .run evidence replays
 go build -race -tags verif -o .bin/vnode ./cmd/vnode
-for d in checks/c[0-9][0-9]; do
-  [ -d "$d" ] || continue
-  n=$(basename "$d")
-  [ "$n" = "c00" ] && continue
-  go build -race -tags verif -o ".bin/$n" "./$d"
+for id in $(jq -r '.checks[].property_id' MANIFEST.json); do
+  n=$(echo "$id" | tr 'A-Z' 'a-z')
+  go build -race -tags verif -o ".bin/$n" "./checks/$n"
 done
 echo "setup ok"
